@@ -68,6 +68,10 @@ def main():
         from . import c19
 
         c19.main()
+    elif pid == "C14":
+        from . import mono
+
+        mono.main()
     else:
         print("no check registered for %s" % pid)
         sys.exit(3)
